@@ -172,6 +172,12 @@ func (d *describer) d1(v ssa.Value) string {
 		}
 		return v.Op.String() + d.d(v.X)
 	case *ssa.BinOp:
+		// x+0 (what an inlined constant argument leaves behind) is x
+		if v.Op == token.ADD {
+			if k, ok := v.Y.(*ssa.Const); ok && k.Value != nil && k.Value.ExactString() == "0" {
+				return d.d(v.X)
+			}
+		}
 		return "(" + d.d(v.X) + v.Op.String() + d.d(v.Y) + ")"
 	case *ssa.Slice:
 		if v.Low == nil && v.High == nil && v.Max == nil {
